@@ -80,7 +80,9 @@ def render(pristine, dirty, hexonly=None, ws_append=False, spaces_only=False):
         b = b[:-1]
     if "append" in dirty:
         # appended bytes alternate between visible garbage and pure whitespace (an editor's final newline)
-        if ws_append:
+        if ws_append == "cr":
+            b += b"\r"             # a lone carriage return: whitespace to JSON, a different file to a checksum
+        elif ws_append:
             b += b"\n"
         else:
             b += (b"X" if last != b"X" else b"Y")
@@ -138,7 +140,7 @@ def c17_history(bins, beh, hist, size, rng, sweep=False):
             return [j + k for k in (0, 63, 31, 16, 8, 40, 50)]
         def apply(file):
             p = {"src": src_path, "gen": gen_path, "lock": lock_path}[file]
-            data = render(pristine[file], dirty[file], hexpos() if file == "lock" else None, ws_append=(beh % 2 == 0),
+            data = render(pristine[file], dirty[file], hexpos() if file == "lock" else None, ws_append=(True, False, "cr")[beh % 3],
                           spaces_only=(file == "src"))
             st = os.stat(p)
             with open(p, "wb") as f:
@@ -355,6 +357,46 @@ def c18_value(bins, idx, targets, rng, extra=None):
         fx.cleanup()
 
 
+def c18_checkpointed(bins, idx, targets, rng):
+    """State written under one serialisation, read under the others: `checkpoint update` with the configuration in its
+    first serialisation, a file edited, then `analyze` / `checkpoint show` / `run` under every serialisation of the same
+    value must answer the same."""
+    fx = fixture.Fixture(bins, targets)
+    try:
+        for t in targets[:3]:
+            fx.add_cmd(t["path"], "build", [{"op": "exit", "code": 0}], ext=".sh")
+        cfg = fx.config()
+        sers = serialisations(cfg, rng)
+        fx.write_config(sers[0][1])
+        with open(os.path.join(fx.repo, ".gitignore"), "a") as f:
+            f.write("Monorail.json\n")            # the configuration file's own bytes are not a change of the repository
+        fx.git_init()
+        if fx.monorail(["checkpoint", "update"])["rc"] != 0:
+            raise vlib.ToolError("checkpoint update failed")
+        with open(os.path.join(fx.repo, targets[0]["path"], "src.txt"), "a") as f:
+            f.write("edit\n")
+        styles = []
+        for name, text in sers:
+            fx.write_config(text)
+            outs, rc = [], 0
+            for args in (["analyze", "--changes", "--target-groups"], ["checkpoint", "show"]):
+                r = fx.monorail(args)
+                o = r["out"]
+                if isinstance(o, dict):
+                    o = dict(o)
+                    o.pop("timestamp", None)
+                outs.append(o)
+                rc = max(rc, abs(r["rc"]) if r["rc"] is not None else 9)
+            fx.reset_helper()
+            r = fx.monorail(["run", "-c", "build"])
+            outs.append({"run_rc": r["rc"], "started": sorted({(e.get("id") or {}).get("target", "?") for e in fx.events() if e["k"] == "start"})})
+            styles.append({"style": name, "size": len(text), "rc": rc,
+                           "digest": hashlib.sha256(json.dumps(outs, sort_keys=True).encode()).hexdigest()[:20]})
+        return {"ev": "c18", "value": idx, "ntargets": len(targets), "styles": styles, "with_checkpoint": True}, None
+    finally:
+        fx.cleanup()
+
+
 def c18_generate(bins, idx, targets, rng):
     """`config generate` reads a configuration on stdin (a pipe): every serialisation of the same value must produce
     the same generated file, lockfile and output."""
@@ -515,8 +557,11 @@ def run(pid, tier):
             i, (ts, extra) = iv
             if extra == "generate":
                 return c18_generate(bins, i, ts, random.Random(chk.seed * 13 + i))
+            if extra == "checkpointed":
+                return c18_checkpointed(bins, i, ts, random.Random(chk.seed * 13 + i))
             return c18_value(bins, i, ts, random.Random(chk.seed * 13 + i), extra)
         values += [(g, "generate") for g in gen_values]
+        values += [(values[0][0], "checkpointed"), (values[1][0], "checkpointed")]
         with ThreadPoolExecutor(max_workers=8) as ex:
             res = list(ex.map(one, enumerate(values)))
         ra, rb = c18_race(bins, len(res), values[0][0], random.Random(chk.seed), 120 if tier == "quick" else 1500)
